@@ -55,4 +55,10 @@ MUTANTS = [
       "        tid_col = f'{tid:>11} ' if self.show_tid else ''\n        formatted_data = formatted_data + tid_col\n        if self.show_process:\n            formatted_data += f'{self._format_process(tid):<34}'\n        event_rep = str(trace)"),
     N("C14", "== sentinel form", P,
       "        return f'{process_name}({pid})' if pid != -1 else f'Error: tid {tid}'", "        return f'Error: tid {tid}' if pid == -1 else f'{process_name}({pid})'"),
+    F("C14", "a thread-name record declares the name only when the name is not empty", TR,
+      "    if data is not None:\n        parser.pids_names[data.pid] = event.name\n    return event\n\n\ndef handle_trace_string_exec",
+      "    if data is not None and event.name:\n        parser.pids_names[data.pid] = event.name\n    return event\n\n\ndef handle_trace_string_exec", "R4"),
+    N("C14", "the pending record is tested with a nested if", TR,
+      "    if data is not None:\n        parser.pids_names[data.pid] = event.name\n    return event\n\n\ndef handle_trace_string_exec",
+      "    if data is None:\n        return event\n    parser.pids_names[data.pid] = event.name\n    return event\n\n\ndef handle_trace_string_exec"),
 ]
